@@ -84,6 +84,26 @@ func genQuery(r *core.Rng) (method, query string, valid bool) {
 // GenPlan draws a churn plan.
 func GenPlan(r *core.Rng, seed, run uint64) *Plan {
 	p := &Plan{Seed: seed, Run: run}
+	if r.Chance(0.04) {
+		// "big" flavour: a dump between 1 and 2 MiB, so that the handler's
+		// grow-and-retry capture has to reach its last doubling
+		n := r.Range(120, 200)
+		for i := 0; i < n; i++ {
+			p.Steps = append(p.Steps, Step{Op: "spawn", Kind: []string{"recv", "wg", "cond", "select2"}[r.Intn(4)], Depth: r.Range(60, 95), Creator: r.Intn(3)})
+		}
+		for i, k := 0, r.Range(2, 4); i < k; i++ {
+			q := "maxmem=" + []string{"2097152", "4194304", "67108864", "1", "1048576"}[r.Intn(5)]
+			if r.Chance(0.5) {
+				q += "&augment=0"
+			}
+			if r.Chance(0.5) {
+				q += "&similarity=" + validSim[1+r.Intn(4)]
+			}
+			p.Steps = append(p.Steps, Step{Op: "request", Method: "GET", Query: q})
+		}
+		p.Steps = append(p.Steps, Step{Op: "snapshot"})
+		return p
+	}
 	n := r.Range(4, 40)
 	live := 0
 	spawned := 0
@@ -493,17 +513,26 @@ func (c *checker) checkResponse(method, query string, code int, ctype, body stri
 	}
 	c.probes["request-valid"]++
 	if truncated {
+		// the dump does not fit into maxmem: the handler cannot account for
+		// everything and the statement does not ask it to; it must still answer
+		if code != 200 && code != 500 {
+			c.fail("status", "%s: dump larger than maxmem answered with %d (want 200 or 500)", what, code)
+		}
 		return
 	}
+	// One clause for everything a valid request is owed: which of its parts
+	// fails (500, page cut short, goroutines unaccounted for) can depend on
+	// where exactly a capture was cut, i.e. on pointer values printed by the
+	// runtime, which no seed controls.
 	if code != 200 {
-		c.fail("status", "%s: valid request answered with %d: %s", what, code, clip(body, 200))
+		c.fail("valid-response", "%s: valid request answered with %d: %s", what, code, clip(body, 200))
 		return
 	}
 	if !strings.HasPrefix(ctype, "text/html") {
-		c.fail("status", "%s: content type %q", what, ctype)
+		c.fail("valid-response", "%s: content type %q", what, ctype)
 	}
 	if b := balanced(body); b != "" || len(body) == 0 {
-		c.fail("page-complete", "%s: the page is not complete: %s (%d bytes)", what, b, len(body))
+		c.fail("valid-response", "%s: the page is not complete: %s (%d bytes)", what, b, len(body))
 		return
 	}
 	sum := 0
@@ -512,7 +541,7 @@ func (c *checker) checkResponse(method, query string, code int, ctype, body stri
 		sum += n
 	}
 	if wantCount >= 0 && sum != wantCount {
-		c.fail("page-accounts", "%s: the page accounts for %d goroutines, the process had %d when the handler took its dump", what, sum, wantCount)
+		c.fail("valid-response", "%s: the page accounts for %d goroutines, the process had %d when the handler took its dump", what, sum, wantCount)
 	}
 }
 
@@ -544,10 +573,27 @@ func queryValid(method, query string) bool {
 				return false
 			}
 		case "maxmem":
-			if !in(v, validMem) {
+			if n, err := strconv.Atoi(v); err != nil || n <= 0 {
 				return false
 			}
 		}
 	}
 	return true
+}
+
+// effectiveMaxmem is the capture limit a valid query asks for (the handler's
+// documented default is 64 MiB, its documented minimum 1 MiB).
+func effectiveMaxmem(query string) int {
+	mm := 64 << 20
+	for _, kv := range strings.Split(query, "&") {
+		if k, v, _ := strings.Cut(kv, "="); k == "maxmem" {
+			if n, err := strconv.Atoi(v); err == nil {
+				mm = n
+			}
+		}
+	}
+	if mm < 1<<20 {
+		mm = 1 << 20
+	}
+	return mm
 }
